@@ -725,9 +725,10 @@ static inline char *safec_find_percent_n(const char *fmt) {
             fmt++;
             continue;
         }
-        while (*fmt && strchr("-+ #0123456789.*'$", *fmt))
+        /* glibc also knows the flag I, the scanf modifier m and the length Z */
+        while (*fmt && strchr("-+ #0123456789.*'$I", *fmt))
             fmt++;
-        while (*fmt && strchr("hlLjztq", *fmt))
+        while (*fmt && strchr("mhlLjztqZ", *fmt))
             fmt++;
         if (*fmt == 'n')
             return (char *)fmt;
@@ -754,9 +755,10 @@ static inline wchar_t *safec_find_percent_wn(const wchar_t *fmt) {
             fmt++;
             continue;
         }
-        while (*fmt && *fmt < 128 && strchr("-+ #0123456789.*'$", (int)*fmt))
+        /* glibc also knows the flag I, the scanf modifier m and the length Z */
+        while (*fmt && *fmt < 128 && strchr("-+ #0123456789.*'$I", (int)*fmt))
             fmt++;
-        while (*fmt && *fmt < 128 && strchr("hlLjztq", (int)*fmt))
+        while (*fmt && *fmt < 128 && strchr("mhlLjztqZ", (int)*fmt))
             fmt++;
         if (*fmt == L'n')
             return (wchar_t *)fmt;
@@ -786,9 +788,10 @@ static inline wchar_t *safec_find_percent_wn_printf(const wchar_t *fmt) {
             fmt++;
             continue;
         }
-        while (*fmt && *fmt < 128 && strchr("-+ #0123456789.*'$", (int)*fmt))
+        /* glibc also knows the flag I and the length Z */
+        while (*fmt && *fmt < 128 && strchr("-+ #0123456789.*'$I", (int)*fmt))
             fmt++;
-        while (*fmt && *fmt < 128 && strchr("hlLjztq", (int)*fmt))
+        while (*fmt && *fmt < 128 && strchr("hlLjztqZ", (int)*fmt))
             fmt++;
         if (*fmt == L'n')
             return (wchar_t *)fmt;
